@@ -26,3 +26,35 @@ package oxia
 //@ requires a != nil && b != nil
 //@ reads fields(proto.GetResponse), fields(string), fields(uint8)
 //@ modifies nothing
+
+// ---------------------------------------------------------------- notification subscriber (C17)
+
+// One received batch: the first batch of a subscription only positions it (it is
+// remembered, not forwarded); after a batch has been handled without error it is the
+// last offset received; a failed batch does not move the position.
+//
+//@ func shardNotificationsManager.multiplexNotificationBatch(snm, nb) (err)
+//@ property C17
+//@ requires nb != nil && snm.nm != nil && snm.nm.initWaitGroup != nil && snm.log != nil && snm.ctx != nil
+//@ ensures snm.initialized
+//@ ensures !old(snm.initialized) ==> err == nil && snm.lastOffsetReceived == nb.Offset
+//@ ensures old(snm.initialized) ==> snm.lastOffsetReceived == old(snm.lastOffsetReceived)
+//@ modifies snm.initialized, snm.lastOffsetReceived
+
+//@ func shardNotificationsManager.multiplexNotificationBatchOnce(snm, notifications) (err)
+//@ property C17
+//@ requires notifications != nil && snm.nm != nil && snm.nm.initWaitGroup != nil && snm.log != nil && snm.ctx != nil
+//@ ensures err == nil ==> snm.initialized
+//@ ensures err != nil && old(snm.initialized) ==> snm.lastOffsetReceived == old(snm.lastOffsetReceived)
+//@ ensures old(snm.initialized) ==> snm.initialized
+//@ modifies *
+
+// (Re)connecting: a subscriber that has received a batch on this shard asks the leader to
+// continue right after the last offset it received; one that has received nothing names
+// no offset.
+//
+//@ func shardNotificationsManager.getNotifications(snm) (err)
+//@ property C17
+//@ requires snm.nm != nil && snm.nm.shardManager != nil && snm.nm.clientPool != nil && snm.backoff != nil && snm.ctx != nil
+//@ assert at call GetNotifications#0: in != nil && in.Shard == snm.shard && (snm.initialized ==> in.StartOffsetExclusive != nil && *in.StartOffsetExclusive == snm.lastOffsetReceived)
+//@ modifies *
